@@ -13,6 +13,7 @@ import DnaModel.Proofs.Split
 import DnaModel.Proofs.Fold
 import DnaModel.Props.C15
 import DnaModel.Props.C10
+import DnaModel.Props.C08
 set_option linter.unusedVariables false
 set_option linter.unusedSimpArgs false
 namespace Dna.C04
@@ -230,6 +231,120 @@ theorem initial_sequence_in_constructed_space (s : Seq) (rs : List Space.Restric
     (hc : sp.constrainSequence s t = .ok (r, t')) :
     r.length = s.length ∧ ∀ c ∈ sp.choicesList, c.seg r ∈ c.variants :=
   initial_sequence_in_space sp s t t' r (from_optimization_problem_fits s rs sp hrs h).1 hc
+
+/-! ### EnforceSequence: the restriction is exactly the documented predicate, and exactly `evaluate` passing -/
+
+theorem optAll_map_range {α : Type} (f : Nat → Option α) (n : Nat) (rs : List α) :
+    Space.optAll ((List.range n).map f) = some rs ↔ (rs.length = n ∧ ∀ k, k < n → f k = rs[k]?) := by
+  induction n generalizing f rs with
+  | zero =>
+    simp only [List.range_zero, List.map_nil, Space.optAll, Option.some.injEq, Nat.not_lt_zero, false_imp_iff, implies_true, and_true]
+    constructor
+    · intro h; rw [← h]; rfl
+    · intro h; exact (List.length_eq_zero_iff.1 h).symm
+  | succ n ih =>
+    rw [List.range_succ_eq_map, List.map_cons, List.map_map]
+    cases h0 : f 0 with
+    | none =>
+      simp only [Space.optAll, reduceCtorEq, false_iff, not_and]
+      intro hl hall
+      have := hall 0 (by omega)
+      rw [h0] at this
+      cases rs with
+      | nil => simp at hl
+      | cons x r => simp at this
+    | some x =>
+      simp only [Space.optAll, Option.map_eq_some_iff]
+      constructor
+      · rintro ⟨r, hr, rfl⟩
+        obtain ⟨h1, h2⟩ := (ih (f ∘ Nat.succ) r).1 hr
+        refine ⟨by simp [h1], ?_⟩
+        intro k hk
+        cases k with
+        | zero => simp [h0]
+        | succ k => simpa using h2 k (by omega)
+      · rintro ⟨hl, hall⟩
+        cases rs with
+        | nil => simp at hl
+        | cons y r =>
+          have hy := hall 0 (by omega)
+          rw [h0] at hy
+          simp only [List.getElem?_cons_zero, Option.some.injEq] at hy
+          subst hy
+          refine ⟨r, (ih (f ∘ Nat.succ) r).2 ⟨by simpa using hl, ?_⟩, rfl⟩
+          intro k hk
+          simpa using hall (k + 1) (by omega)
+
+/-- **EnforceSequence (forward / unstranded)**: a sequence satisfies every nucleotide restriction the
+    constraint hands to the mutation space **iff** the constraint's own `evaluate` passes on it, i.e.
+    iff every position holds a nucleotide of its IUPAC letter — the restriction is exact and the
+    constraint is soundly "enforced by nucleotide restrictions" -/
+theorem enforceSequence_restrict_iff (sq : Seq) (a b : Nat) (st : Int) (hst : st ≠ -1) (s0 t : Seq) (hab : a ≤ b)
+    (hb : b ≤ t.length) (hlen : b - a ≤ sq.length) (rs : List Space.Restriction)
+    (hr : BSpec.restrict (K := Rat) (.enforceSequence sq ⟨a, b, st⟩) s0 = some rs) :
+    (∀ r ∈ rs, win t r.start (r.stop - r.start) ∈ r.variants) ↔ C08.PassesB (.enforceSequence sq ⟨a, b, st⟩) t := by
+  rw [C08.enforceSequence_passes_iff sq a b st hst t hab hb]
+  have hst' : (st == -1) = false := by simp [hst]
+  simp only [BSpec.restrict, hst', Bool.false_eq_true, if_false] at hr
+  have hn : ((b : Int) - (a : Int)).toNat = b - a := by omega
+  rw [hn, optAll_map_range] at hr
+  obtain ⟨hl, hall⟩ := hr
+  -- the k-th restriction is position a+k with the singletons of the k-th letter's nucleotides
+  have hkth : ∀ k, k < b - a → ∃ letter set, sq[k]? = some letter ∧ lookup letter Gen.iupac = some set ∧
+      rs[k]? = some ⟨a + k, a + k + 1, set.map (fun n => [n])⟩ := by
+    intro k hk
+    have h1 := hall k hk
+    have e1 : ((a : Int) + (k : Int) - (a : Int)).toNat = k := by omega
+    have e2 : ((a : Int) + (k : Int)).toNat = a + k := by omega
+    simp only [e1, e2] at h1
+    have hlt : k < rs.length := by omega
+    rw [List.getElem?_eq_getElem hlt] at h1
+    cases hq : sq[k]? with
+    | none => simp [hq] at h1
+    | some letter =>
+      cases hlk : lookup letter Gen.iupac with
+      | none => simp [hq, hlk] at h1
+      | some set =>
+        simp only [hq, hlk, Option.map_some, Option.some.injEq] at h1
+        exact ⟨letter, set, rfl, hlk, by rw [List.getElem?_eq_getElem hlt, h1]⟩
+  have hsingle : ∀ (i : Nat) (n : Char), win t i 1 = [n] ↔ t[i]? = some n := by
+    intro i n
+    constructor
+    · intro h
+      have : (win t i 1)[0]? = some n := by rw [h]; rfl
+      rw [C08.win_getElem? t i 1 0 (by omega)] at this
+      simpa using this
+    · intro h
+      apply List.ext_getElem?
+      intro j
+      cases j with
+      | zero => rw [C08.win_getElem? t i 1 0 (by omega)]; simpa using h
+      | succ j => simp [win]
+  constructor
+  · intro h
+    refine ⟨hlen, ?_⟩
+    intro i hi
+    obtain ⟨letter, set, hq, hlk, hri⟩ := hkth i hi
+    have := h _ (List.mem_of_getElem? hri)
+    simp only [Nat.add_sub_cancel_left, List.mem_map] at this
+    obtain ⟨n, hn1, hn2⟩ := this
+    have hti : t[a + i]? = some n := (hsingle (a + i) n).1 hn2.symm
+    refine ⟨n, letter, set, ?_, hq, hlk, by simpa using hn1⟩
+    rw [C08.win_getElem? t a (b - a) i hi]; exact hti
+  · rintro ⟨_, hok⟩ r hr
+    obtain ⟨k, hk, hget⟩ := List.getElem_of_mem hr
+    have hk' : k < b - a := by omega
+    obtain ⟨letter, set, hq, hlk, hri⟩ := hkth k hk'
+    rw [List.getElem?_eq_getElem hk, hget, Option.some.injEq] at hri
+    obtain ⟨n, letter', set', h1, h2, h3, h4⟩ := hok k hk'
+    rw [hq, Option.some.injEq] at h2
+    subst h2
+    rw [hlk, Option.some.injEq] at h3
+    subst h3
+    rw [hri]
+    simp only [Nat.add_sub_cancel_left, List.mem_map]
+    rw [C08.win_getElem? t a (b - a) k hk'] at h1
+    exact ⟨n, by simpa using h4, ((hsingle (a + k) n).2 h1).symm⟩
 
 /-- the construction cannot fail on restrictions inside the sequence … the two `crash` branches of the model
     (a `None` under a restriction, `merge_with` on an empty set) are unreachable: stated as what a successful step
